@@ -45,6 +45,9 @@ def generate(seed, tier, enlarged=False):
         # corpus: a parallel process that changes its own timestep through its parameters
         {'kind': 'twin', 'procs': [{'ts': 2.0, 'par': True, 'cls': 'adaptive'}, {'ts': 1.0, 'par': False, 'cls': 'acc'}],
          'step_par': False, 'calls': [[6.0, 'update']], 'end': 'once', 'profile': False},
+        # corpus: a schema override on a parallel process
+        {'kind': 'twin', 'procs': [{'ts': 1.0, 'par': True, 'cls': 'acc', 'ovr': True}, {'ts': 1.0, 'par': False, 'cls': 'acc'}],
+         'step_par': False, 'calls': [[2.0, 'update']], 'end': 'once', 'profile': False},
         # corpus: a parallel process that uses OS-level parallelism of its own inside next_update
         {'kind': 'twin', 'procs': [{'ts': 1.0, 'par': True, 'cls': 'spawner'}, {'ts': 1.0, 'par': False, 'cls': 'acc'}],
          'step_par': False, 'calls': [[2.0, 'update']], 'end': 'once', 'profile': False},
@@ -80,6 +83,9 @@ def generate(seed, tier, enlarged=False):
                       'cls': rng.choice(['acc', 'acc', 'setter', 'adaptive', 'spawner'])} for _ in range(nproc)]
             if not any(p['par'] for p in procs):
                 procs[0]['par'] = True
+            for p in procs:
+                if p['cls'] != 'adaptive' and rng.random() < 0.3:
+                    p['ovr'] = True
             calls = [[rng.choice([1.0, 2.0, 0.5, 3.0]), rng.choice(['update', 'run', 'update'])]
                      for _ in range(rng.randint(1, 3))]
             if calls[-1][1] == 'run':
@@ -164,6 +170,9 @@ def build_twin(c, parallel):
         params = {'pid': i, 'time_step': p['ts']}
         if parallel and p['par']:
             params['_parallel'] = True
+        if p.get('ovr'):
+            # a schema override on this process (its own elapsed-time variable starts at 7, and is set, not added)
+            params['_schema'] = {'own': {'elapsed': {'_default': 7.0, '_updater': 'set'}}}
         if p.get('cls') == 'adaptive':
             params = dict(params, timestep=2.0)
             params.pop('time_step')
